@@ -12,6 +12,9 @@ verus! {
 // the shipped targets are 64-bit (assumption A-64BIT, listed in the evidence): `(end - start) as usize + 1` on two i32 cannot wrap
 global size_of usize == 8;
 
+// vstd's model of std::collections::HashMap (u64 keys, the default hasher builder)
+broadcast use vstd::std_specs::hash::group_hash_axioms;
+
 //@@EXTRACT enum traits/src/data.rs GarnishDataType
 //@@EXTRACT enum traits/src/instructions.rs Instruction
 //@@EXTRACT enum data/src/data/number.rs SimpleNumber derive=Clone,Copy
@@ -167,6 +170,97 @@ pub uninterp spec fn selects_everything(e: VerifExtents) -> bool;
 /// stands for `Extents<SimpleNumber>` (traits/src/data.rs; its bounds need PartialOrd/Debug impls the extract does not carry) - rule R8
 #[verifier::external_body]
 pub struct VerifExtents { _p: u8 }
+
+// ---------------------------------------------------------------------------------
+// C15: the intern table of SimpleGarnishData (simple.rs::cache_add)
+// ---------------------------------------------------------------------------------
+/// the key under which cache_add looks a value up first: `DefaultHasher` fed with the value and its type (uninterpreted - nothing is
+/// assumed about the hash, in particular not that different values have different keys)
+pub uninterp spec fn key_of<T: SimpleDataType>(v: SimpleData<T>) -> u64;
+/// what `==` (the derived PartialEq of SimpleData, numbers by SimpleNumber's own PartialEq) answers for two cells; uninterpreted
+pub uninterp spec fn data_eq<T: SimpleDataType>(a: SimpleData<T>, b: SimpleData<T>) -> bool;
+
+/// Stands for the four statements of cache_add that compute the key (`DefaultHasher::new()`, two `hash` calls, `finish()`; rule
+/// R8-cut). Assumed: the key is a function of the value.
+#[verifier::external_body]
+pub fn verif_hash_key<T: SimpleDataType>(value: &SimpleData<T>) -> (r: u64)
+    ensures r == key_of(*value)
+{ unimplemented!() }
+
+/// the derived `PartialEq` of SimpleData (the derive is dropped by rule R7): one call answers `data_eq`
+impl<T: SimpleDataType> PartialEq for SimpleData<T> {
+    #[verifier::external_body]
+    fn eq(&self, other: &Self) -> bool { unimplemented!() }
+}
+impl<T: SimpleDataType> vstd::std_specs::cmp::PartialEqSpecImpl for SimpleData<T> {
+    open spec fn obeys_eq_spec() -> bool { true }
+    open spec fn eq_spec(&self, other: &Self) -> bool { data_eq(*self, *other) }
+}
+/// assumed about the derived `==`: values of different variants are never equal
+#[verifier::external_body]
+pub proof fn axiom_data_eq_same_type<T: SimpleDataType>()
+    ensures forall|a: SimpleData<T>, b: SimpleData<T>| #[trigger] data_eq(a, b) ==> simple_type_of(a) == simple_type_of(b)
+{}
+
+/// the n-th key tried for a value whose own key is `h0` (keys wrap around)
+pub open spec fn step_key(h0: u64, n: nat) -> u64 { ((h0 as nat + n) % 0x1_0000_0000_0000_0000) as u64 }
+/// the entry `addr` of the intern table answers a request for `value`
+pub open spec fn hit<T: SimpleDataType>(cells: Seq<SimpleData<T>>, addr: usize, value: SimpleData<T>) -> bool {
+    addr < cells.len() && data_eq(cells[addr as int], value)
+}
+/// `value` is filed at address `a`: trying the keys from its own key on, the first `n` entries belong to other values and the next
+/// one is `a`, which holds an equal value
+pub open spec fn filed_at<T: SimpleDataType>(cache: Map<u64, usize>, cells: Seq<SimpleData<T>>, value: SimpleData<T>, n: nat, a: usize) -> bool {
+    (forall|j: nat| j < n ==> cache.contains_key(#[trigger] step_key(key_of(value), j)) && !hit(cells, cache[step_key(key_of(value), j)], value))
+    && cache.contains_key(step_key(key_of(value), n)) && cache[step_key(key_of(value), n)] == a && hit(cells, a, value)
+}
+/// the table `c2` has every entry of `c1`
+pub open spec fn table_grew(c1: Map<u64, usize>, c2: Map<u64, usize>) -> bool {
+    forall|k: u64| c1.contains_key(k) ==> c2.contains_key(k) && #[trigger] c2[k] == c1[k]
+}
+
+//@@LEMMA C15
+/// a value stays filed where it is whatever is added to the data table or to the intern table afterwards - with
+/// cache_add.same_constant_same_address this is "adding an equal constant again returns the same address", however many other
+/// constants were added in between
+pub proof fn lemma_filed_is_stable<T: SimpleDataType>(c1: Map<u64, usize>, cells1: Seq<SimpleData<T>>, c2: Map<u64, usize>, cells2: Seq<SimpleData<T>>, value: SimpleData<T>, n: nat, a: usize)
+    requires filed_at(c1, cells1, value, n, a), table_grew(c1, c2), cells1.len() <= cells2.len(),
+        forall|i: int| 0 <= i < cells1.len() ==> cells2[i] == cells1[i],
+        // entries of the first table name cells that exist (what cache_add establishes: `table_names_cells`)
+        forall|k: u64| c1.contains_key(k) ==> #[trigger] c1[k] < cells1.len(),
+    ensures filed_at(c2, cells2, value, n, a)
+{
+    assert forall|j: nat| j < n implies c2.contains_key(#[trigger] step_key(key_of(value), j)) && !hit(cells2, c2[step_key(key_of(value), j)], value) by {
+        let k = step_key(key_of(value), j);
+        assert(c1.contains_key(k) && c2[k] == c1[k] && c1[k] < cells1.len());
+    }
+    let k = step_key(key_of(value), n);
+    assert(c2[k] == c1[k]);
+}
+
+//@@LEMMA C15
+/// two different constants never share an address: whatever address a request is answered with holds a value equal to the
+/// requested one (cache_add.reads_back), so one address for two requests means both are equal to the value stored there
+pub proof fn lemma_filed_is_unique<T: SimpleDataType>(cache: Map<u64, usize>, cells: Seq<SimpleData<T>>, value: SimpleData<T>, n: nat, a: usize, m: nat, b: usize)
+    requires filed_at(cache, cells, value, n, a), filed_at(cache, cells, value, m, b),
+    ensures n == m && a == b
+{
+    if n < m { assert(!hit(cells, cache[step_key(key_of(value), n)], value)); }
+    if m < n { assert(!hit(cells, cache[step_key(key_of(value), m)], value)); }
+}
+
+impl<T: SimpleDataType, A> SimpleGarnishData<T, A> {
+    /// every entry of the intern table names a cell of the data table
+    pub open spec fn table_names_cells(&self) -> bool {
+        forall|k: u64| self.cache@.contains_key(k) ==> #[trigger] self.cache@[k] < self.cells().len()
+    }
+    /// everything but the data table and the intern table
+    pub open spec fn rest_unchanged(&self, o: &Self) -> bool {
+        self.register == o.register && self.values == o.values && self.instructions == o.instructions
+          && self.expression_table == o.expression_table && self.instruction_cursor == o.instruction_cursor
+          && self.end_of_constant_data == o.end_of_constant_data && self.current_list == o.current_list
+    }
+}
 
 impl DataIndexIterator {
     /// the items the iterator has still to yield, in order (unit V1's `rem`)
